@@ -75,7 +75,7 @@ class KHybrid(BaseEstimator, ClusterMixin, util.MolecularClusterMixin):
         self.random_first_center = random_first_center
 
         self.metric = util._get_distance_method(metric)
-        self.random_state = check_random_state(random_state)
+        self.random_state = random_state
         self.mpi_mode = mpi_mode if mpi_mode is not None else mpi.size() != 1
         self.args = args
         self.lengths = lengths
@@ -100,7 +100,7 @@ class KHybrid(BaseEstimator, ClusterMixin, util.MolecularClusterMixin):
             dist_cutoff=self.cluster_radius,
             random_first_center=self.random_first_center,
             init_centers=init_centers,
-            random_state=self.random_state,
+            random_state=check_random_state(self.random_state),
             mpi_mode=self.mpi_mode, args=self.args,
             lengths=self.lengths)
 
